@@ -41,6 +41,14 @@ const (
 var srcNames = []string{"defaults", "parent", "file1", "file2", "set-json", "set", "set-string", "set-file", "set-literal"}
 var srcTags = []string{"def", "par", "f1", "f2", "js", "set", "str", "sf", "lit"}
 var scopeTags = []string{"r", "s", "ss"}
+
+func famName(src int) string {
+	if src == srcF1 {
+		return "files"
+	}
+	return srcNames[src]
+}
+
 var chartNames = []string{"root", "sub", "subsub"}
 
 // abstract leaves of a source tree
@@ -66,6 +74,89 @@ type layerCase struct {
 	Srcs  [nSrc]*srcOpt `json:"srcs"`
 	// AllEntries: also run chartutil.CoalesceValues and chartutil.MergeValues (no-mutation oracle), not only ToRenderValues
 	AllEntries bool `json:"all_entries"`
+	// Rep, when set, is a repeated flag family (root-only chart): the same -f path or the
+	// same --set/--set-json/--set-string expression given more than once.
+	Rep *repSpec `json:"rep,omitempty"`
+}
+
+// repSpec: Items are the two distinct things of one flag family (for Family ==
+// srcF1 the files file1 and file2, otherwise two different expressions of the
+// same flag whose values carry the tags r and s); Seq is the order in which
+// they are given on the command line, with repetition.
+type repSpec struct {
+	Family int      `json:"family"`
+	Items  []srcOpt `json:"items"`
+	Seq    []int    `json:"seq"`
+}
+
+func (r *repSpec) String() string {
+	var parts []string
+	for _, i := range r.Seq {
+		n := srcNames[r.Family] + "#" + strconv.Itoa(i)
+		if r.Family == srcF1 {
+			n = srcNames[srcF1+i]
+		}
+		parts = append(parts, n)
+	}
+	var items []string
+	for i, it := range r.Items {
+		n := srcNames[r.Family] + "#" + strconv.Itoa(i)
+		if r.Family == srcF1 {
+			n = srcNames[srcF1+i]
+		} else if r.Family == srcJSON {
+			n += [...]string{"(obj)", "(kv)"}[it.Variant]
+		}
+		items = append(items, n+"="+canon(it.Tree))
+	}
+	return "given in the order [" + strings.Join(parts, ", ") + "] with " + strings.Join(items, "; ")
+}
+
+// occ is one occurrence of a user source on the command line, in the order
+// Options.MergeValues is documented to apply them. tag < 0: a regular source
+// (its tree is repeated per chart scope); tag >= 0: an item of a repeated
+// family (root scope only, values tagged with scopeTags[tag]).
+type occ struct {
+	src int
+	o   *srcOpt
+	tag int
+}
+
+func occurrences(lc layerCase) []occ {
+	var out []occ
+	for src := srcF1; src < nSrc; src++ {
+		if o := lc.Srcs[src]; o != nil {
+			out = append(out, occ{src, o, -1})
+		}
+		if lc.Rep != nil && lc.Rep.Family == src {
+			for _, i := range lc.Rep.Seq {
+				s := src
+				if src == srcF1 {
+					s = srcF1 + i
+				}
+				out = append(out, occ{s, &lc.Rep.Items[i], i})
+			}
+		}
+	}
+	return out
+}
+
+// doc is everything an occurrence says (all chart scopes).
+func (oc occ) doc(shape int) mp {
+	if oc.tag >= 0 {
+		return inst(oc.o.Tree, oc.src, oc.tag).(mp)
+	}
+	return wrapped(oc.o, oc.src, shape)
+}
+
+// at is what an occurrence says for one chart scope.
+func (oc occ) at(scope int) mp {
+	if oc.tag >= 0 {
+		if scope != 0 {
+			return mp{}
+		}
+		return inst(oc.o.Tree, oc.src, oc.tag).(mp)
+	}
+	return instMap(oc.o, oc.src, scope)
 }
 
 func (lc layerCase) String() string {
@@ -79,6 +170,9 @@ func (lc layerCase) String() string {
 			v = [...]string{"(obj)", "(kv)"}[o.Variant]
 		}
 		parts = append(parts, srcNames[i]+v+"="+canon(o.Tree))
+	}
+	if lc.Rep != nil {
+		parts = append(parts, lc.Rep.String())
 	}
 	return fmt.Sprintf("charts=%s; %s", strings.Join(chartNames[:lc.Shape], ">"), strings.Join(parts, "; "))
 }
@@ -423,48 +517,52 @@ func (w *work) flagValue(src, scope int, kind string) string {
 // options builds the real values.Options for the user sources of a case.
 func (w *work) options(lc layerCase) values.Options {
 	var o values.Options
-	for _, src := range []int{srcF1, srcF2} {
-		if so := lc.Srcs[src]; so != nil {
-			key := fmt.Sprintf("vf|%d|%d|%s", src, lc.Shape, canon(so.Tree))
+	for _, oc := range occurrences(lc) {
+		oc := oc
+		switch {
+		case oc.src == srcF1 || oc.src == srcF2:
+			key := fmt.Sprintf("vf|%d|%d|%d|%s", oc.src, lc.Shape, oc.tag, canon(oc.o.Tree))
 			o.ValueFiles = append(o.ValueFiles, w.file(key, func() []byte {
-				b, err := yaml.Marshal(wrapped(so, src, lc.Shape))
+				b, err := yaml.Marshal(oc.doc(lc.Shape))
 				if err != nil {
 					panic(err)
 				}
 				return b
 			}))
-		}
-	}
-	if so := lc.Srcs[srcJSON]; so != nil && so.Variant == 0 {
-		b, err := json.Marshal(wrapped(so, srcJSON, lc.Shape))
-		if err != nil {
-			panic(err)
-		}
-		o.JSONValues = append(o.JSONValues, string(b))
-	}
-	for _, src := range []int{srcJSON, srcSet, srcStr, srcFile, srcLit} {
-		so := lc.Srcs[src]
-		if so == nil || (src == srcJSON && so.Variant == 0) {
-			continue
-		}
-		var ls []leafAt
-		leaves(so.Tree, nil, &ls)
-		for scope := 0; scope < lc.Shape; scope++ {
-			var exprs []string
-			for _, l := range ls {
-				exprs = append(exprs, scopePrefix(scope)+strings.Join(l.path, ".")+"="+w.flagValue(src, scope, l.kind))
+		case oc.src == srcJSON && oc.o.Variant == 0:
+			b, err := json.Marshal(oc.doc(lc.Shape))
+			if err != nil {
+				panic(err)
 			}
-			switch src {
-			case srcJSON:
-				o.JSONValues = append(o.JSONValues, strings.Join(exprs, ","))
-			case srcSet:
-				o.Values = append(o.Values, strings.Join(exprs, ","))
-			case srcStr:
-				o.StringValues = append(o.StringValues, strings.Join(exprs, ","))
-			case srcFile:
-				o.FileValues = append(o.FileValues, strings.Join(exprs, ","))
-			case srcLit:
-				o.LiteralValues = append(o.LiteralValues, exprs...) // one expression per flag: no separator exists
+			o.JSONValues = append(o.JSONValues, string(b))
+		default:
+			var ls []leafAt
+			leaves(oc.o.Tree, nil, &ls)
+			lo, hi := 0, lc.Shape-1 // one flag per chart scope
+			if oc.tag >= 0 {
+				lo, hi = oc.tag, oc.tag // a repeated flag: root scope only, tag used for the values
+			}
+			for scope := lo; scope <= hi; scope++ {
+				prefix := scopePrefix(scope)
+				if oc.tag >= 0 {
+					prefix = ""
+				}
+				var exprs []string
+				for _, l := range ls {
+					exprs = append(exprs, prefix+strings.Join(l.path, ".")+"="+w.flagValue(oc.src, scope, l.kind))
+				}
+				switch oc.src {
+				case srcJSON:
+					o.JSONValues = append(o.JSONValues, strings.Join(exprs, ","))
+				case srcSet:
+					o.Values = append(o.Values, strings.Join(exprs, ","))
+				case srcStr:
+					o.StringValues = append(o.StringValues, strings.Join(exprs, ","))
+				case srcFile:
+					o.FileValues = append(o.FileValues, strings.Join(exprs, ","))
+				case srcLit:
+					o.LiteralValues = append(o.LiteralValues, exprs...) // one expression per flag: no separator exists
+				}
 			}
 		}
 	}
@@ -542,13 +640,9 @@ func refScope(lc layerCase, scope int) scopeRef {
 	}
 	chain := over(def, par)
 	user := mp{}
-	for src := srcF1; src < nSrc; src++ {
-		o := lc.Srcs[src]
-		if o == nil {
-			continue
-		}
-		t := instMap(o, src, scope)
-		if isStrvals(src, o) && descendsThroughNonMap(user, t) {
+	for _, oc := range occurrences(lc) { // in command-line order; a repeated file or flag is simply applied again
+		t := oc.at(scope)
+		if isStrvals(oc.src, oc.o) && descendsThroughNonMap(user, t) {
 			r.conflict = true
 		}
 		user = over(user, t)
@@ -659,10 +753,8 @@ func execLayer(w *work, lc layerCase) ([]lfail, layerObs) {
 	// (a) the merged user values are the fold of the user sources
 	{
 		want := mp{}
-		for src := srcF1; src < nSrc; src++ {
-			if o := lc.Srcs[src]; o != nil {
-				want = over(want, wrapped(o, src, lc.Shape))
-			}
+		for _, oc := range occurrences(lc) {
+			want = over(want, oc.doc(lc.Shape))
 		}
 		g, wn := norm(user, true), norm(want, true)
 		if canon(g) != canon(wn) {
@@ -719,6 +811,9 @@ func execLayer(w *work, lc layerCase) ([]lfail, layerObs) {
 		gs := canon(got)
 		r := refs[s]
 		cls, fl := classify(lc, s, r)
+		if lc.Rep != nil {
+			cls, fl = classifyRep(lc)
+		}
 		obs.classes = append(obs.classes, cls)
 		obs.floors = append(obs.floors, fl...)
 		if r.grouped != r.chained {
@@ -869,6 +964,47 @@ func classify(lc layerCase, scope int, r scopeRef) (string, []string) {
 	return "a:scalar-from-" + ownerName(owners), floors
 }
 
+// classifyRep names a repeated-family case by family and order, and says
+// whether the repetition matters (the last occurrence repeats an earlier one
+// and something else that speaks about the same top-level key came in between).
+func classifyRep(lc layerCase) (string, []string) {
+	r := lc.Rep
+	seq := ""
+	for _, i := range r.Seq {
+		seq += strconv.Itoa(i)
+	}
+	var floors []string
+	n := len(r.Seq)
+	last := r.Seq[n-1]
+	seenLast, otherBetween := false, false
+	for _, i := range r.Seq[:n-1] {
+		if i == last {
+			seenLast = true
+		} else if seenLast {
+			otherBetween = true
+		}
+	}
+	overlap := false
+	if len(r.Items) == 2 {
+		for k := range r.Items[0].Tree {
+			if _, ok := r.Items[1].Tree[k]; ok {
+				overlap = true
+			}
+		}
+	}
+	if seenLast && otherBetween && overlap {
+		if r.Family == srcF1 {
+			floors = append(floors, "saw-repeated-file-path-decides")
+		} else {
+			floors = append(floors, "saw-repeated-flag-expression-decides")
+		}
+	}
+	if r.Family != srcF1 && overlap && n >= 2 && r.Seq[n-1] != r.Seq[n-2] {
+		floors = append(floors, "saw-same-flag-twice-later-wins")
+	}
+	return "repeat-" + famName(r.Family) + ":order=" + seq, floors
+}
+
 func ownerName(o map[string]bool) string {
 	for k := range o {
 		return k
@@ -954,6 +1090,43 @@ func minimiseLayer(w *work, lc layerCase, fam [nSrc][]srcOpt, stillFails func(la
 			}
 		}
 	}
+	if cur.Rep != nil {
+		for changed := true; changed && len(cur.Rep.Seq) > 1; { // drop occurrences
+			changed = false
+			for i := range cur.Rep.Seq {
+				x := cur
+				r := *cur.Rep
+				r.Seq = append(append([]int{}, cur.Rep.Seq[:i]...), cur.Rep.Seq[i+1:]...)
+				x.Rep = &r
+				if try(x) {
+					changed = true
+					break
+				}
+			}
+		}
+		for it := range cur.Rep.Items { // simpler item trees
+			src := cur.Rep.Family
+			if src == srcF1 {
+				src += it
+			}
+			for _, o := range fam[src] {
+				if canon(o.Tree) == canon(cur.Rep.Items[it].Tree) && o.Variant == cur.Rep.Items[it].Variant {
+					break
+				}
+				if o.Variant != cur.Rep.Items[it].Variant {
+					continue
+				}
+				x := cur
+				r := *cur.Rep
+				r.Items = append([]srcOpt{}, cur.Rep.Items...)
+				r.Items[it] = o
+				x.Rep = &r
+				if try(x) {
+					break
+				}
+			}
+		}
+	}
 	for round := 0; round < 2; round++ {
 		for s := 0; s < nSrc; s++ {
 			if cur.Srcs[s] == nil {
@@ -989,6 +1162,13 @@ func layerKey(lc layerCase, f lfail) string {
 			}
 			parts = append(parts, n)
 		}
+	}
+	if lc.Rep != nil {
+		seq := ""
+		for _, i := range lc.Rep.Seq {
+			seq += strconv.Itoa(i)
+		}
+		parts = append(parts, "repeated-"+famName(lc.Rep.Family)+"-order-"+seq)
 	}
 	return core.SanitizeKey(fmt.Sprintf("layer/%s/%s/levels=%d", f.Class, strings.Join(parts, "+"), lc.Shape))
 }
